@@ -25,31 +25,53 @@ def tset(*names):
     return {n for n in names}
 
 
-def level_counter(v, ob, tag, lvl, q, dq):
-    """q / dq: sets of literal keys whose conjunction is the queue / dequeue strobe."""
-    ds = v.drivers(lvl)
-    inc = [d for d in ds if lin_eq(d.value, Op("+", (d.target, Const(1))))]
-    dec = [d for d in ds if lin_eq(d.value, Op("-", (d.target, Const(1))))]
+def _expand(v, t_):
+    if isinstance(t_, Op):
+        return Op(t_.op, tuple(_expand(v, a_) for a_ in t_.args))
+    d_ = deref(v, t_)
+    return _expand(v, d_) if d_ is not t_ else t_
 
-    def split(d):
-        pos, neg = set(), []
-        for a, p in v.guard_lits(d, False):
-            dd = deref(v, a)
-            if p:
-                pos |= nkeys(v, conj(dd, True))
-            elif dd is a and not (isinstance(a, Op) and a.op in ("&", "and")):
-                pos.add(lkey((a, False)))          # a negated primitive belongs to the strobe itself (e.g. ~we)
-            else:
-                neg.append(nkeys(v, conj(dd, True)))
-        return pos, neg
-    ok = len(ds) == 2 and len(inc) == 1 and len(dec) == 1
-    if ok:
-        ip, ineg = split(inc[0])
-        dp, dneg = split(dec[0])
-        ok = ip == q and ineg == [dq] and dp == dq and dneg == [q]
+
+def level_counter(v, ob, tag, lvl, q, dq):
+    """q / dq: sets of literal keys whose conjunction is the queue / dequeue strobe. The guards of the counter's drivers are evaluated for
+    every assignment of the primitive handshake signals: +1 must happen exactly under queue & ~dequeue, -1 exactly under dequeue & ~queue."""
+    import itertools
+    ds = sorted(v.drivers(lvl), key=lambda l_: l_.order)
     ob.instance("%s reservation counter" % tag, [str(d) for d in ds])
-    if not ok:
-        ob.refute("%s:level-counter" % tag, "%s: the reservation counter %s is not +1 on queue&~dequeue / -1 on dequeue&~queue: %s" % (tag, lvl, [str(d) for d in ds]),
+    prims = sorted({k.lstrip("~") for k in q | dq})
+    bad = None
+    for bits in itertools.product((False, True), repeat=len(prims)):
+        env = dict(zip(prims, bits))
+        Q = all((not env[k[1:]]) if k.startswith("~") else env[k] for k in q)
+        DQ = all((not env[k[1:]]) if k.startswith("~") else env[k] for k in dq)
+        delta = 0
+        for d in ds:
+            fires = True
+            for c_, p_ in d.guards:
+                r_ = eval3(_expand(v, c_), env)
+                if r_ is None:
+                    bad = "guard %s of `%s` depends on more than the two handshakes" % (key(c_), d)
+                    break
+                if r_ != p_:
+                    fires = False
+                    break
+            if bad:
+                break
+            if fires:
+                if lin_eq(d.value, Op("+", (d.target, Const(1)))):
+                    delta = 1
+                elif lin_eq(d.value, Op("-", (d.target, Const(1)))):
+                    delta = -1
+                else:
+                    bad = "`%s` is neither +1 nor -1" % d
+        if bad:
+            break
+        want = (1 if Q and not DQ else 0) - (1 if DQ and not Q else 0)
+        if delta != want:
+            bad = "with queue=%s dequeue=%s the counter moves by %+d, expected %+d" % (Q, DQ, delta, want)
+            break
+    if bad:
+        ob.refute("%s:level-counter" % tag, "%s: the reservation counter %s is not +1 on queue&~dequeue / -1 on dequeue&~queue (%s): %s" % (tag, lvl, bad, [str(d) for d in ds]),
                   ds[0].loc if ds else None)
 
 
@@ -266,15 +288,35 @@ def shared_cmd(ctx):
         if sorted(map(sorted, ks)) != sorted([sorted({"port.rdata.data", "~rmw_mask"}), sorted({"axi.w.data", "rmw_mask"})]):
             ob5.refute("merge", "RMW merge is %s, expected (port.rdata.data & ~rmw_mask) | (axi.w.data & rmw_mask): with the polarity swapped the bytes the "
                        "master wrote are replaced by the old memory contents" % key(val), merge[0].loc)
-    masks = [l for l in w.leaves if l.kind == "assign" and isinstance(l.target, Op) and l.target.op == "slice" and key(l.target.args[0]) == "rmw_mask"]
-    okm = len(masks) == 4
-    for i, l in enumerate(sorted(masks, key=lambda l_: l_.target.args[1].v if isinstance(l_.target.args[1], Const) else 0)):
-        lo, hi = l.target.args[1], l.target.args[2]
-        if not (isinstance(lo, Const) and lo.v == 8 * i and isinstance(hi, Const) and hi.v == 8 * (i + 1) and key(l.value) == "Replicate(axi.w.strb[%d], 8)" % i):
-            okm = False
+    # the mask, as bit provenance: bit b of the mask comes from strobe bit b // 8 (whether it is assigned byte by byte or as one Cat)
+    from ..bits import bitvec, Unresolved as _Unres
+    MASKK = None
+    if merge:
+        for t_ in subterms(merge[0].value):
+            if isinstance(t_, Op) and t_.op in ("~", "not") and isinstance(t_.args[0], (Obj, Sym)):
+                MASKK = key(t_.args[0])
+    prov = {}
+    masks = []
+    okm = MASKK is not None
+    try:
+        for l in w.leaves:
+            if l.kind != "assign" or l.target is None:
+                continue
+            if isinstance(l.target, Op) and l.target.op == "slice" and key(l.target.args[0]) == MASKK and isinstance(l.target.args[1], Const) and isinstance(l.target.args[2], Const):
+                bv = bitvec(l.value, {}, lambda n_: 4)
+                for i_, b_ in enumerate(bv[:l.target.args[2].v - l.target.args[1].v]):
+                    prov[l.target.args[1].v + i_] = b_
+                masks.append(l)
+            elif key(l.target) == MASKK:
+                for i_, b_ in enumerate(bitvec(l.value, {}, lambda n_: 4)):
+                    prov[i_] = b_
+                masks.append(l)
+    except _Unres:
+        okm = False
+    okm = okm and len(prov) == 32 and all(prov.get(i_) == ("axi.w.strb", i_ // 8) for i_ in range(32))
     ob5.instance("mask bytes", [str(l) for l in masks[:2]])
     if not okm:
-        ob5.refute("mask", "rmw_mask is not built as strobe bit i replicated over bits [8i, 8i+8): %s" % [str(l) for l in masks], masks[0].loc if masks else None)
+        ob5.refute("mask", "the RMW mask %s is not built as strobe bit i replicated over bits [8i, 8i+8): %s" % (MASKK, [str(l) for l in masks][:4]), masks[0].loc if masks else None)
     st = [l for l in w.leaves if l.kind == "assign" and key(l.target) == "w_buffer.sink.strb"]
     ob5.instance("RMW write strobes", [key(l.value) for l in st])
     if not st or any(not (isinstance(l.value, Const) and l.value.v == 15) for l in st):
